@@ -100,7 +100,7 @@ def rerun_slow(wd, cases, out, skip, tag, binary='harness', extra_env=None, slow
     return out
 
 
-SLOW_MS = int(os.environ.get('VERIF_SLOW_SECONDS', '400')) * 1000
+SLOW_MS = int(os.environ.get('VERIF_SLOW_SECONDS', '150')) * 1000
 SLOW_CASES = []
 
 
